@@ -28,6 +28,7 @@ import (
 	"time"
 
 	"github.com/avfs/avfs"
+	"github.com/avfs/avfs/idm/memidm"
 	"github.com/avfs/avfs/vfs/memfs"
 	"github.com/avfs/avfs/vfs/orefafs"
 
@@ -130,7 +131,13 @@ func errName(err error) string {
 	return "err:" + s
 }
 
-func newFS(fsn string) avfs.VFS {
+func newFS(fsn string) any {
+	if fsn == "memidm" {
+		idm := memidm.New()
+		_, _ = idm.AddGroup("g0")
+		_, _ = idm.AddUser("u0", "g0")
+		return idm
+	}
 	var v avfs.VFS
 	if fsn == "orefafs" {
 		v = orefafs.New()
@@ -146,7 +153,7 @@ func newFS(fsn string) avfs.VFS {
 	return v
 }
 
-func view(v avfs.VFS) avfs.VFS {
+func view(v any) any {
 	if m, ok := v.(*memfs.MemFS); ok {
 		if s, err := m.Sub("/"); err == nil {
 			return s
@@ -155,12 +162,82 @@ func view(v avfs.VFS) avfs.VFS {
 	return v
 }
 
-func doCall(v avfs.VFS, c call) (res string) {
+// idmCall: the MemIdm calls; a successful Add reports the id it handed out
+func idmCall(idm *memidm.MemIdm, c call) string {
+	errN := func(err error) string {
+		switch err.(type) {
+		case nil:
+			return "ok"
+		case avfs.AlreadyExistsGroupError, avfs.AlreadyExistsUserError:
+			return "exists"
+		case avfs.UnknownGroupError, avfs.UnknownUserError, avfs.UnknownGroupIdError, avfs.UnknownUserIdError:
+			return "unknown"
+		}
+		return "err:" + err.Error()
+	}
+	switch c.Kind {
+	case "addgroup":
+		g, err := idm.AddGroup(c.P)
+		if err != nil {
+			return errN(err)
+		}
+		return fmt.Sprintf("ok:%d", g.Gid())
+	case "delgroup":
+		return errN(idm.DelGroup(c.P))
+	case "adduser":
+		u, err := idm.AddUser(c.P, c.Q)
+		if err != nil {
+			return errN(err)
+		}
+		return fmt.Sprintf("ok:%d:%d", u.Uid(), u.Gid())
+	case "deluser":
+		return errN(idm.DelUser(c.P))
+	case "lookupgroup":
+		g, err := idm.LookupGroup(c.P)
+		if err != nil {
+			return errN(err)
+		}
+		return fmt.Sprintf("ok:%d", g.Gid())
+	case "lookupuser":
+		u, err := idm.LookupUser(c.P)
+		if err != nil {
+			return errN(err)
+		}
+		return fmt.Sprintf("ok:%d:%d", u.Uid(), u.Gid())
+	case "lookupgid":
+		g, err := idm.LookupGroupId(atoi(c.P))
+		if err != nil {
+			return errN(err)
+		}
+		return "ok:" + g.Name()
+	case "lookupuid":
+		u, err := idm.LookupUserId(atoi(c.P))
+		if err != nil {
+			return errN(err)
+		}
+		return "ok:" + u.Name()
+	}
+	return "bad-call"
+}
+
+func atoi(s string) int {
+	n := 0
+	for _, c := range s {
+		n = n*10 + int(c-'0')
+	}
+	return n
+}
+
+func doCall(sys any, c call) (res string) {
 	defer func() {
 		if r := recover(); r != nil {
 			res = "panic"
 		}
 	}()
+	if idm, ok := sys.(*memidm.MemIdm); ok {
+		return idmCall(idm, c)
+	}
+	v := sys.(avfs.VFS)
 	switch c.Kind {
 	case "mkdir":
 		return errName(v.Mkdir(c.P, 0o777))
@@ -211,7 +288,11 @@ func doCall(v avfs.VFS, c call) (res string) {
 }
 
 // snapshot of the whole tree: path, type, link count, size of files, link targets; sorted
-func snapshot(v avfs.VFS) string {
+func snapshot(sys any) string {
+	if idm, ok := sys.(*memidm.MemIdm); ok {
+		return idm.VerifDump()
+	}
+	v := sys.(avfs.VFS)
 	var out []string
 	var rec func(dir string)
 	rec = func(dir string) {
@@ -283,7 +364,7 @@ func seqOutcomes(fsn string, p program) map[string]string {
 			return
 		}
 		v := newFS(fsn)
-		views := make([]avfs.VFS, len(p))
+		views := make([]any, len(p))
 		for t := range p {
 			views[t] = view(v)
 		}
@@ -317,7 +398,7 @@ func runConcurrent(fsn string, p program, r *lib.Rng, hold string, holdW bool) o
 		wg.Add(1)
 		vw := view(v)
 		spin := r.Intn(64)
-		go func(t int, vw avfs.VFS, spin int) {
+		go func(t int, vw any, spin int) {
 			defer wg.Done()
 			atomic.AddInt32(&ready, 1)
 			for atomic.LoadInt32(&goFlag) == 0 {
@@ -355,7 +436,27 @@ func runConcurrent(fsn string, p program, r *lib.Rng, hold string, holdW bool) o
 
 var leaf = []string{"/d/f", "/d/x", "/d/n", "/e/g", "/e/n"}
 
+// MemIdm: a small pool of names around one group and one user that exist from the start (g0 = gid 1, u0 = uid 1)
+func idmCalls(known bool) []call {
+	var cs []call
+	for _, g := range []string{"g0", "g1"} {
+		cs = append(cs, call{Kind: "addgroup", P: g}, call{Kind: "delgroup", P: g}, call{Kind: "lookupgroup", P: g})
+	}
+	for _, u := range []string{"u0", "u1"} {
+		cs = append(cs, call{Kind: "deluser", P: u}, call{Kind: "lookupuser", P: u})
+	}
+	cs = append(cs, call{Kind: "lookupgid", P: "1"}, call{Kind: "lookupgid", P: "2"}, call{Kind: "lookupuid", P: "1"}, call{Kind: "lookupuid", P: "2"})
+	if known {
+		// AddUser is two critical sections (recorded finding): programs with it are outside the proved calls
+		cs = append(cs, call{Kind: "adduser", P: "u1", Q: "g0"}, call{Kind: "adduser", P: "u1", Q: "g1"}, call{Kind: "adduser", P: "u0", Q: "g0"})
+	}
+	return cs
+}
+
 func provedCalls(fsn string) []call {
+	if fsn == "memidm" {
+		return idmCalls(false)
+	}
 	var cs []call
 	kinds := []string{"mkdir", "createexcl", "remove", "lstat"}
 	if fsn == "orefafs" {
@@ -366,10 +467,21 @@ func provedCalls(fsn string) []call {
 			cs = append(cs, call{Kind: k, P: p})
 		}
 	}
+	if fsn == "orefafs" {
+		// MkdirAll and RemoveAll of OrefaFS are one critical section too (C06_single_section_orefafs): nested names
+		for _, p := range []string{"/d/n", "/d/n/m", "/d/n/m/o", "/e/n/m"} {
+			cs = append(cs, call{Kind: "mkdirall", P: p})
+		}
+		cs = append(cs, call{Kind: "mkdir", P: "/d/n/m"}, call{Kind: "mkdir", P: "/d/n/c"}, call{Kind: "lstat", P: "/d/n/m"}, call{Kind: "lstat", P: "/d/n/c"},
+			call{Kind: "removeall", P: "/d/n"}, call{Kind: "removeall", P: "/d/x"}, call{Kind: "remove", P: "/d/n/m"})
+	}
 	return cs
 }
 
 func knownCalls(fsn string) []call {
+	if fsn == "memidm" {
+		return idmCalls(true)
+	}
 	cs := []call{
 		{Kind: "link", P: "/e/h", Q: "/d/n"}, {Kind: "link", P: "/d/f", Q: "/d/n"}, {Kind: "link", P: "/e/h", Q: "/e/n"},
 		{Kind: "rename", P: "/d/f", Q: "/d/n"}, {Kind: "rename", P: "/e/h", Q: "/d/n"}, {Kind: "rename", P: "/e/g", Q: "/d/n"},
@@ -443,7 +555,7 @@ type report struct {
 }
 
 func main() {
-	fsn := flag.String("fs", "memfs", "memfs|orefafs")
+	fsn := flag.String("fs", "memfs", "memfs|orefafs|memidm")
 	mode := flag.String("mode", "proved", "proved|known|deadlock")
 	holdPct := flag.Int("hold", 50, "percentage of rounds (MemFS) started while the lock of a random node is held")
 	rounds := flag.Int("rounds", 20000, "rounds")
